@@ -795,7 +795,7 @@ theorem nid_inv_step (c : Client) (o : TOp) (h : NidOK c) : NidOK (tapply c o) :
     | accept m => exact accept_nidInv c m h
     | decline m => exact decline_nidInv c m h
   | commit k => exact deliverCommit_nidInv c k h
-  | probe gid seq => exact storeProbe_nidInv c gid seq h
+  | probe gid nid tok seq => exact deliverApp_nidInv c gid nid tok seq h
 
 theorem nid_inv_run (c : Client) (ops : List TOp) (h : NidOK c) : NidOK (trun c ops) := by
   induction ops generalizing c with
@@ -884,5 +884,44 @@ theorem unconsented_invitation_inert_false : ¬ unconsented_invitation_inert := 
     { gid := 1, nid := 101, toNid := 300, fromTok := 1, toTok := 2, toEpoch := 3, members := 2, nameLen := 5, removesMe := false }
     (by decide) (by decide) (by decide)
   revert this; decide
+
+/-! ### the exporter-secret cache (found by the correspondence run of the thorough tier) -/
+
+def isWelcome : Res → Bool
+  | .welcome _ => true
+  | _ => false
+
+/-- the full-strength reading of "accepting a valid invitation puts the joiner in exactly the inviter's post-commit
+    group state": … and the joiner reads what the inviter sends from that state under the group's id -/
+def accept_then_readable : Prop :=
+  ∀ (c : Client) (wr : Nat) (m : Invite), isWelcome (process c wr m).2 = true →
+    (accept (process c wr m).1 m).2 = .done → canDecrypt (accept (process c wr m).1 m).1 m.gid m.nid m.tok = true
+
+/-- … is false of the code (OBSERVATION `joined-but-unreadable:stale-exporter-secret`; it needs the open finding
+    welcome-foreign-creator-replaces-mls first).  `exporter_secret` is get-or-create on (group id, epoch NUMBER).  The
+    user accepted a foreign creator's group carrying group 1's MLS group id (epoch 1, state 50), and one event was routed
+    to it — any event tagged with its id, here one of another group: `decrypt_message` caches the secret of the group it
+    routes to before it knows anything else.  The genuine invitation (epoch 1, state 0) is then processed and accepted:
+    the MLS state IS the inviter's (`accept_state`), the record is the invitation's — and the outer layer of every event
+    of the group is opened with the cached secret of state 50: nothing the group sends is ever read, the commit to
+    epoch 2 included.  Replayed by `corpus/C16/stale_exporter_secret_after_foreign_accept.trace`. -/
+theorem accept_then_readable_false : ¬ accept_then_readable := by
+  intro h
+  let forged : Invite := { wInv with rid := some 9, nid := 777, nameLen := 9, tok := 50, welcomer := 2 }
+  let c1 := (process (Client.empty .sql) 30 forged).1
+  let c2 := (accept c1 forged).1
+  let c3 := (deliverApp c2 5 777 99 1).1
+  have := h c3 10 wInv (by decide) (by decide)
+  revert this; decide
+
+/-- the control: without an event routed to the foreign group nothing is cached and the genuine group is readable;
+    and in the witness the joiner's MLS state is exactly the inviter's -/
+example :
+    let forged : Invite := { wInv with rid := some 9, nid := 777, nameLen := 9, tok := 50, welcomer := 2 }
+    let c2 := (accept (process (Client.empty .sql) 30 forged).1 forged).1
+    let c3 := (deliverApp c2 5 777 99 1).1
+    canDecrypt (accept (process c2 10 wInv).1 wInv).1 1 101 0 = true ∧
+    alookup 1 (accept (process c3 10 wInv).1 wInv).1.mls = some { tok := 0, epoch := 1, members := 2 } ∧
+    canDecrypt (accept (process c3 10 wInv).1 wInv).1 1 101 0 = false := by decide
 
 end MdkVerif.Props.C16
